@@ -148,6 +148,32 @@ func Grid(opt GridOptions) []File {
 			{Disc: 3, Rec: &Record{Kind: Struct, Name: "EdgeOne", Fields: []Field{{Name: "x", Type: Prim("uint8")}}}},
 			{Disc: 4, Rec: &Record{Kind: Struct, Name: "EdgeEndsStr", Fields: []Field{{Name: "x", Type: Prim("uint32")}, {Name: "s", Type: Prim("string")}}}},
 		}},
+		// arrays and maps of a record that takes NO bytes on the wire: a count may exceed the bytes that follow it
+		&Record{Kind: Struct, Name: "EdgeEmpty"},
+		&Record{Kind: Message, Name: "EdgeEmptyM"},
+		&Record{Kind: Struct, Name: "One8", Fields: []Field{{Name: "x", Type: Prim("uint8")}}},
+		&Record{Kind: Struct, Name: "HoldsEmpties", Fields: []Field{
+			{Name: "a", Type: Prim("uint8")},
+			{Name: "es", Type: Array(Named("EdgeEmpty"))},
+			{Name: "em", Type: Map("uint8", Named("EdgeEmpty"))},
+			{Name: "after", Type: Prim("uint16")},
+			{Name: "ess", Type: Array(Array(Named("EdgeEmpty")))},
+			{Name: "tail", Type: Array(Named("EdgeEmpty"))},
+		}},
+		&Record{Kind: Message, Name: "EmptiesMsg", Fields: []Field{
+			{Name: "es", Index: 1, Type: Array(Named("EdgeEmpty"))},
+			{Name: "x", Index: 2, Type: Prim("uint32")},
+			{Name: "ms", Index: 3, Type: Array(Named("EdgeEmptyM"))},
+		}},
+		// arrays of arrays of records (index variables of nested loops), of maps of records
+		&Record{Kind: Struct, Name: "NestedRecs", Fields: []Field{
+			{Name: "grid", Type: Array(Array(Named("One8")))},
+			{Name: "cube", Type: Array(Array(Array(Named("EndsInStr"))))},
+			{Name: "mgrid", Type: Array(Array(Named("WideMsg")))},
+			{Name: "ugrid", Type: Array(Array(Named("EdgeU")))},
+			{Name: "am", Type: Array(Map("string", Array(Named("One8"))))},
+			{Name: "tail", Type: Prim("uint16")},
+		}},
 		// records whose last read is a string (the only place where a failure inside a string is not followed by another read)
 		&Record{Kind: Struct, Name: "EndsInStr", Fields: []Field{{Name: "a", Type: Prim("uint32")}, {Name: "s", Type: Prim("string")}}},
 		&Record{Kind: Struct, Name: "EndsInStrs", Fields: []Field{{Name: "a", Type: Prim("uint16")}, {Name: "ss", Type: Array(Prim("string"))}}},
